@@ -189,6 +189,10 @@ def run(fx, tier):
                     is_rc, guarded, from_param, same_vec)
             v.check(ok, 'R-FLOW', '%s::to_reason_codes [%s]' % (f.cls, f.tu), why,
                     key='C14:R-FLOW:%s:to_reason_codes' % f.cls, where=f.file)
+    # the packet that carries the request is the one MQTT 5 defines for these arguments (shared with C17)
+    from c17 import encoder_schema_rules
+    v.rule('R-SCHEMA', 'wire schema of encode_subscribe / encode_unsubscribe vs the MQTT 5 packet table (field order, kinds, sources, flag bits, Remaining Length)')
+    encoder_schema_rules(fx, v, 'C14', only=('encode_subscribe', 'encode_unsubscribe'))
     from c01 import fast_reply_rules
     v.rule('R-DOM', 'early acknowledgements parked in the replies registry are purged before every stream write, stored only by dispatch(), used at most once')
     fast_reply_rules(fx, v, 'C14')
